@@ -29,7 +29,7 @@ pub fn def() -> PropDef {
     PropDef {
         id: "C11",
         level: "model_checking",
-        rule: "explicit-state search over two real LiveActors (never run; driven through their own handlers) sharing a document: events {Trigger(node, NewNeighbor|SyncReport|DirectJoin) -> sync_with_peer (an approved dial is logged instead of being spawned), Deliver(dial) -> the acceptor's accept_sync_request, Lose(dial), for a declined dial the two independent completions (RemoteAbort at the initiator, AcceptError::Abort at the acceptor), for an accepted dial InitiatorDone(ok|fail) and AcceptorDone(ok | exchange failed: AcceptError::Sync | exchange ran, closing failed: AcceptError::Close) in any order; Leave(node) (the coordination part of leaving the document; at most one per history and final within it); Resync dials emitted by the handlers are captured from the dial log}, up to N dials; invariants S1 (at most one accepted dial with both ends unfinished), S2 (crossing dials: exactly one Allow and one Reject(AlreadySyncing)), S3 (a refused sync report leads to exactly one follow-up dial at the end of the busy period, never a spurious one), S4 (in every quiescent state both nodes are Idle for the pair and will dial and accept), S5 (a document outside the sync set — never joined, or left, whatever completions of older sessions arrive afterwards — is declined NotFound and not dialed); canonical state = both coordination snapshots + multiset of in-flight dials and pending completions; non-trivial = histories with a declined, lost or failed dial or two dials in flight at once",
+        rule: "explicit-state search over two real LiveActors (never run; driven through their own handlers) sharing a document: events {Trigger(node, NewNeighbor|SyncReport|DirectJoin) -> sync_with_peer (an approved dial is logged instead of being spawned), Deliver(dial) -> the acceptor's accept_sync_request, Lose(dial), for a declined dial the two independent completions (RemoteAbort at the initiator, AcceptError::Abort at the acceptor), for an accepted dial InitiatorDone(ok|fail) and AcceptorDone(ok | exchange failed: AcceptError::Sync | exchange ran, closing failed: AcceptError::Close) in any order; Down(node) (in the search that delivers actor messages: the gossip layer reports the peer as no longer a neighbour, at most once per history; nothing about the pair may change); Leave(node) (the coordination part of leaving the document; at most one per history and final within it); Resync dials emitted by the handlers are captured from the dial log}, up to N dials; invariants S1 (at most one accepted dial with both ends unfinished), S2 (crossing dials: exactly one Allow and one Reject(AlreadySyncing)), S3 (a refused sync report leads to exactly one follow-up dial at the end of the busy period, never a spurious one), S4 (in every quiescent state both nodes are Idle for the pair and will dial and accept), S5 (a document outside the sync set — never joined, or left, whatever completions of older sessions arrive afterwards — is declined NotFound and not dialed); canonical state = both coordination snapshots + multiset of in-flight dials and pending completions; non-trivial = histories with a declined, lost or failed dial or two dials in flight at once",
         assumptions: &[
             "besides the coordination state the handlers read only whether a content download of the document is queued (explored both ways, constant within a search) and the subscriber list (empty), which is why merging on the snapshot preserves futures",
             "network behaviour is abstracted as: a dial is delivered or lost; the two ends of a session complete independently, successfully or not",
@@ -79,6 +79,9 @@ pub enum Ev {
     /// the application calls the real `start_sync` again for the document the node is already
     /// syncing (the normal way to add peers; here without peers): nothing about the pair changes
     StartAgain(u8),
+    /// the gossip layer tells the node that the peer is no longer its neighbour (`NeighborDown`
+    /// delivered as an actor message): says nothing about sessions, must change nothing for the pair
+    Down(u8),
 }
 
 #[derive(Debug, Clone, PartialEq, Eq, PartialOrd, Ord)]
@@ -306,6 +309,7 @@ struct Model {
     epoch: [u32; 2],
     leaves: u32,
     restarts: u32,
+    downs: u32,
 }
 
 impl Model {
@@ -388,6 +392,7 @@ fn exec(hist: &[Ev], max_dials: usize, max_leaves: u32, mode: u8) -> Option<(Bad
             epoch: [0; 2],
             leaves: 0,
             restarts: 0,
+            downs: 0,
         };
         let mut bad: Bad = vec![];
         let mut observed = String::new();
@@ -601,6 +606,19 @@ fn exec(hist: &[Ev], max_dials: usize, max_leaves: u32, mode: u8) -> Option<(Bad
                     }
                     dial.state = DialState::Lost;
                     observed = format!("Lose({d})");
+                }
+                Ev::Down(n) => {
+                    if mode & 2 == 0 || m.downs >= 1 {
+                        return None;
+                    }
+                    m.downs += 1;
+                    let peer = ids[1 - n as usize];
+                    let _ = block_on_park(pair.nodes[n as usize].actor.verif_on_actor_message(ToLiveActor::NeighborDown { namespace: ns(), peer }));
+                    let dials = take_dials();
+                    if !dials.is_empty() {
+                        step_bad.push(("neighbor_down_starts_nothing", json!({}), format!("node {n}: NeighborDown led to {} dials", dials.len())));
+                    }
+                    observed = format!("Down({n})");
                 }
                 Ev::Leave(n) => {
                     if !m.joined[n as usize] || m.leaves >= max_leaves {
@@ -876,11 +894,12 @@ fn exec(hist: &[Ev], max_dials: usize, max_leaves: u32, mode: u8) -> Option<(Bad
             .collect();
         live.sort();
         let key = format!(
-            "{:?}{:?}{}r{}|{}|{}|{:?}|n{}|{:?}",
+            "{:?}{:?}{}r{}d{}|{}|{}|{:?}|n{}|{:?}",
             m.joined,
             snaps.iter().map(|s| s.syncing).collect::<Vec<_>>(),
             m.leaves,
             m.restarts,
+            m.downs,
             show_snap(&snaps[0]),
             show_snap(&snaps[1]),
             live,
@@ -937,6 +956,9 @@ fn exec(hist: &[Ev], max_dials: usize, max_leaves: u32, mode: u8) -> Option<(Bad
             if mode & 4 != 0 && m.joined[n as usize] && m.restarts < 1 {
                 enabled.push(Ev::StartAgain(n));
             }
+            if mode & 2 != 0 && m.downs < 1 {
+                enabled.push(Ev::Down(n));
+            }
         }
         for (d, dial) in m.dials.iter().enumerate() {
             match &dial.state {
@@ -987,6 +1009,7 @@ fn events(max_dials: usize, all_reasons: bool) -> Vec<Ev> {
     for n in 0..2u8 {
         v.push(Ev::Leave(n));
         v.push(Ev::StartAgain(n));
+        v.push(Ev::Down(n));
     }
     for d in 0..max_dials + 2 {
         v.push(Ev::Deliver(d));
